@@ -488,6 +488,14 @@ def header_fill_order(rule):
 @prop('C19')
 def C19(run):
     broken = lean_gate(run, THEOREMS['C19'])
+    if not broken:
+        from props import gen_gate
+        broken = broken + gen_gate(run, 'translator_needs', 'gen_needs', 'tables',
+                                   'Gen.{headerKeys,conditionalKeys,reportNeeds,dumpNeeds,jsonNeeds,softKeys,hookNeeds} = C19.* by rfl; shape of _fill / '
+                                   'Election._interrupted / Election.report,dump,json accepted; interrupted_can_render, interrupted_hooks_can_render, '
+                                   'conditional_keys_not_needed (lean/Props/C19.lean, C19Prog.lean)',
+                                   'the header keys written by ElectionRecord._fill, the keys read by the renderers and rule hooks, or the shape of the interrupt '
+                                   'path (droop/record.py, election.py, rules/*.py), extracted, are no longer what lean/Props/C19.lean is about')
     model_keys = common.run_driver(['HEADERKEYS'])[0].split(',')
     for rule in ('wigm', 'meek', 'qpq', 'mpls'):
         keys, last = header_fill_order(rule)
